@@ -277,4 +277,44 @@ theorem maxLevelIdx_fresh (idxs : List Int) : ∀ x ∈ idxs, x < GenLevel.maxLe
 
 theorem maxLevelIdx_empty : GenLevel.maxLevelIdx [] = -1 := rfl
 
+
+/-! ### `compactLN`: the order of its steps -/
+
+abbrev CEv := String × Nat
+abbrev CK := List Nat → List CEv → Option (List Nat × List CEv)
+
+theorem foldr_emit (tag : String) (k : CK) (l : List Nat) (dl : List Nat) (ev : List CEv) :
+    List.foldr (fun (e : Nat) (kont : CK) => fun dl ev => kont dl (ev ++ [(tag, e)])) k l dl ev = k dl (ev ++ l.map fun e => (tag, e)) := by
+  induction l generalizing ev with
+  | nil => simp
+  | cons a l ih => simp only [List.foldr_cons, List.map_cons]; rw [ih]; simp
+
+theorem foldr_fetch (tag : String) (k : CK) (l : List Nat) (dl : List Nat) (ev : List CEv) :
+    List.foldr (fun (e : Nat) (kont : CK) => fun dl ev => kont (dl ++ [e]) (ev ++ [(tag, e)])) k l dl ev =
+      k (dl ++ l) (ev ++ l.map fun e => (tag, e)) := by
+  induction l generalizing dl ev with
+  | nil => simp
+  | cons a l ih => simp only [List.foldr_cons, List.map_cons]; rw [ih]; simp
+
+/-- the translated `compactLN`: the overlapping tables of level N+1 are read first (older data), then the table of level N;
+    they are merged in that order; the output gets its name while every input is still in the index; the index is updated;
+    the output is written (`writeTable`: tmp, write, fsync, rename) **before** any input file is removed; a failed write
+    panics and removes nothing -/
+theorem compactLN_table (needLevel : Bool) (lnT : Nat) (ln1 : List Nat) (newIdx : Nat) (wf : Bool) :
+    GenLevel.compactLN needLevel lnT ln1 newIdx wf [] =
+      if wf then none else
+      some (ln1 ++ [lnT],
+        (if needLevel then [("new level", 0)] else []) ++ (ln1.map fun e => ("fetch LN+1", e)) ++
+        [("fetch LN", lnT), ("MergeVersions", ln1.length + 1), ("discardStaleEntries", 0), ("filter.Build", 0), ("table.Build", 0),
+         ("name := maxLevelIdx(LN+1)+1", newIdx), ("PushBack LN+1", newIdx), ("Remove handle LN", lnT)] ++
+        (ln1.map fun e => ("Remove handle LN+1", e)) ++ [("writeTable LN+1", newIdx), ("os.Remove LN", lnT)] ++
+        (ln1.map fun e => ("os.Remove LN+1", e))) := by
+  unfold GenLevel.compactLN
+  simp only [Bool.false_eq_true, ↓reduceIte]
+  have h3 := fun (k : CK) dl ev => foldr_emit "os.Remove LN+1" k ln1 dl ev
+  have h2 := fun (k : CK) dl ev => foldr_emit "Remove handle LN+1" k ln1 dl ev
+  have h1 := fun (k : CK) dl ev => foldr_fetch "fetch LN+1" k ln1 dl ev
+  cases needLevel <;> cases wf <;> simp only [h1, h2, h3, Bool.false_eq_true, ↓reduceIte, List.nil_append, List.length_append,
+    List.length_cons, List.length_nil, List.append_assoc, List.cons_append] <;> simp
+
 end LevelTie
